@@ -458,6 +458,37 @@ def interplay_worker(task):
                         "%s (fresh on an equal stream: %s)" % (
                             name, how, before, gd, exp_d, gc, exp_c),
                         {"case": name, "before": before}))
+        # (d) a real stream that is re-seeded (with the seed it already has,
+        #     with another one, by reset) makes the distribution repeat
+        #     exactly what a fresh instance on a fresh stream draws
+        from pydsol.core.streams import MersenneTwister
+        for before in (1, 3):
+            for how in ("same-seed", "other-seed", "reset"):
+                n += 1
+                try:
+                    s1 = MersenneTwister(11)
+                    d = mk(s1)
+                    seq_of(d, before)
+                    if how == "same-seed":
+                        s1.set_seed(11)
+                    elif how == "other-seed":
+                        s1.set_seed(12)
+                    else:
+                        s1.reset()
+                    d.stream = s1       # (drops a cached spare value)
+                    got = seq_of(d, K)
+                    fresh = seq_of(mk(MersenneTwister(
+                        12 if how == "other-seed" else 11)), K)
+                except Exception:  # noqa
+                    continue
+                if got != fresh and name != "Constant(4.2)":
+                    viols.append((
+                        "C14:equally-seeded-streams-give-different-draws:%s"
+                        % how,
+                        "%s: after %d draws and %s on a MersenneTwister(11): "
+                        "%s, fresh instance on a fresh stream: %s" % (
+                            name, before, how, got, fresh),
+                        {"case": name, "before": before}))
     return n, viols
 
 
@@ -524,6 +555,116 @@ def extreme_parameter_worker(idx):
                                                                      x),
                           {"part": "extreme", "case": name}))
             break
+    return n, viols
+
+
+# ---- systematic grid of extreme (but documented-valid) parameters
+EXT = [1e-300, 1e-17, 1e-3, 1.0, 1e3, 1e17, 1e300]
+EXT_MU = [-1e300, -1e3, 0.0, 1e3, 1e300]
+P01 = [1e-300, 1e-17, 1e-3, 0.5, 1 - 1e-3, 1 - 2.0 ** -53, 1.0]
+SMALL_INTS = [1, 2, 1000]
+
+
+def grid_families():
+    from pydsol.core import distributions as D
+    nn = lambda x: isinstance(x, float) and x >= 0  # noqa
+    unit = lambda x: isinstance(x, float) and 0.0 <= x <= 1.0  # noqa
+    fin = lambda x: isinstance(x, float) and x == x  # noqa
+    inn = lambda x: isinstance(x, int) and not isinstance(x, bool) \
+        and x >= 0  # noqa
+    return {
+        "Exponential": (D.DistExponential, [EXT], nn),
+        "Weibull": (D.DistWeibull, [EXT, EXT], nn),
+        "Gamma": (D.DistGamma, [EXT, EXT], nn),
+        "Erlang": (D.DistErlang, [EXT, SMALL_INTS], nn),
+        "Beta": (D.DistBeta, [EXT, EXT], unit),
+        "Pearson5": (D.DistPearson5, [EXT, EXT], nn),
+        "Pearson6": (D.DistPearson6, [EXT, EXT, EXT], nn),
+        "LogNormal": (D.DistLogNormal, [EXT_MU, EXT], nn),
+        "Normal": (D.DistNormal, [EXT_MU, EXT], fin),
+        "Geometric": (D.DistGeometric, [P01], inn),
+        "NegBinomial": (D.DistNegBinomial, [SMALL_INTS, P01], inn),
+        "Binomial": (D.DistBinomial, [SMALL_INTS, [0.0] + P01], inn),
+        "Bernoulli": (D.DistBernoulli, [[0.0] + P01], inn),
+        "Poisson": (D.DistPoisson, [[1e-300, 1e-17, 1e-3, 1.0, 1e3, 1e4]],
+                    inn),
+        "Uniform": (D.DistUniform, [[-1e300, -1.0, 0.0], [1e-300, 1.0,
+                                                           1e300]], fin),
+    }
+
+
+class _Budget(Exception):
+    pass
+
+
+def grid_worker(fam):
+    """every combination of extreme parameter values of one class x every
+    script of <= 2 extreme uniforms (then an ordinary tail) and one ordinary
+    stream: construction succeeds, every draw returns within a budget of
+    100000 stream numbers, does not raise, is not NaN and lies in the support"""
+    import traceback
+    Scripted = make_scripted()
+
+    class Budgeted(Scripted):
+        mark = 0
+
+        def next_float(self):
+            if self.i - self.mark > 100000:
+                raise _Budget()
+            return super().next_float()
+    cls, doms, support = grid_families()[fam]
+    scripts = [()] + [s for L in (1, 2)
+                      for s in itertools.product(ALPHA, repeat=L)]
+    tail = tuple(weyl(50))
+    n = 0
+    found = {}
+
+    def bucket(a):
+        if isinstance(a, int):
+            return "n%d" % a
+        return "tiny" if abs(a) < 1e-10 else "huge" if abs(a) > 1e10 \
+            else "mid"
+    for args in itertools.product(*doms):
+        if fam == "Uniform" and not args[0] < args[1]:
+            continue
+        # the parameter regime is part of the identity of a finding
+        reg = "-".join(bucket(a) for a in args)
+        try:
+            cls(Budgeted(()), *args)
+        except Exception as ex:  # noqa
+            found.setdefault(("rejected", type(ex).__name__, reg),
+                             (args, (), str(ex)[:80]))
+            n += 1
+            continue
+        for sc in scripts:
+            n += 1
+            st = Budgeted(sc, tail=tail)
+            d = cls(st, *args)
+            try:
+                for _ in range(3 if sc else 25):
+                    st.mark = st.i
+                    x = d.draw()
+                    if isinstance(x, float) and x != x:
+                        found.setdefault(("nan-draw", "", reg),
+                                         (args, sc, repr(x)))
+                    elif not support(x):
+                        found.setdefault(("outside-support", "", reg),
+                                         (args, sc, repr(x)))
+            except _Budget:
+                found.setdefault(("draw-does-not-return", "", reg),
+                                 (args, sc, "more than 100000 stream numbers "
+                                  "consumed by one draw"))
+            except Exception as ex:  # noqa
+                tb = traceback.extract_tb(ex.__traceback__)[-1]
+                found.setdefault(("draw-raises", type(ex).__name__,
+                                  "%s:%s:%s" % (tb.name, tb.line, reg)),
+                                 (args, sc, str(ex)[:80]))
+    viols = []
+    for (kind, exc, site), (args, sc, detail) in found.items():
+        viols.append(("C14:extreme-grid:%s:%s:%s:%s" % (fam, kind, exc, site),
+                      "Dist%s%r on stream output %s...: %s %s %s" % (
+                          fam, args, list(sc), kind, exc, detail),
+                      {"part": "grid", "family": fam}))
     return n, viols
 
 
@@ -662,6 +803,13 @@ def run(ctx):
             ctx.violation(v[0], v[1], v[2])
     ctx.part("extreme parameters on an ordinary stream", draws=ne,
              cases=len(extreme_parameter_cases()))
+    ng = 0
+    for n, viols in common.pimap(grid_worker, sorted(grid_families())):
+        ng += n
+        for v in viols:
+            ctx.violation(v[0], v[1], v[2])
+    ctx.part("systematic grid of extreme parameters", runs=ng,
+             real_values=EXT, probabilities=P01)
     nk, viols = constructor_table()
     for v in viols:
         ctx.violation(v[0], v[1], dict(v[2], part="constructor"))
@@ -669,7 +817,7 @@ def run(ctx):
     ctx.sample({"case": "Gamma(2.5,2)", "script": [0.25, 1 - EPS, 5e-324]})
     ctx.sample({"case": "Normal(1,2) re-pointed after 1 draw (cached spare)"})
     ctx.coverage.update(
-        evaluations=total + ni + nk + ne, distinct_nontrivial=nontriv,
+        evaluations=total + ni + nk + ne + ng, distinct_nontrivial=nontriv,
         rule="%d (class, parameter) cases reaching every sampler branch x all "
         "scripts of length <= 5 over the uniform alphabet %s followed by a "
         "benign tail, one draw and (when script is left over) a second draw "
@@ -694,6 +842,8 @@ def replay(data):
         n, v = constructor_table()
         v = [x for x in v if x[2].get("class") == data.get("class")]
         return [x[1] for x in v[:3]] or None
+    if data.get("part") == "grid":
+        return [x[1] for x in grid_worker(data["family"])[1]] or None
     if data.get("part") == "extreme":
         for i, cse in enumerate(extreme_parameter_cases()):
             if cse[0] == data["case"]:
